@@ -292,12 +292,19 @@ def run_member(m):
         res["argv"] = argv
         res["files"] = texts
         bundle = os.path.join(d, "bundle")
-        rc, err = run_clean([m["wild"], *argv], {"WILD_SAVE_DIR": bundle}, W)
+        tmo = m.get("timeout", 30)
+        rc, err = run_clean([m["wild"], *argv], {"WILD_SAVE_DIR": bundle}, W, timeout=tmo)
+        if rc in ("timeout", "oserror"):
+            res.update(status="harness-" + rc, stderr=err)
+            return res
         outp = os.path.join(W, names["output-name"])
         orig_sha = vlib.file_sha(outp)
         if rc != 0 or orig_sha is None:
             # Is it the save-dir request that breaks the link?
-            rc2, err2 = run_clean([m["wild"], *argv], {}, W)
+            rc2, err2 = run_clean([m["wild"], *argv], {}, W, timeout=tmo)
+            if rc2 in ("timeout", "oserror"):
+                res.update(status="harness-" + rc2, stderr=err2)
+                return res
             if rc2 == 0 and vlib.file_sha(outp) is not None:
                 res.update(status="savedir-link-fails", rc=rc, stderr=err[-300:])
             else:
@@ -318,8 +325,15 @@ def run_member(m):
         cwd = os.path.join(d, "elsewhere")
         os.makedirs(cwd)
         out2 = os.path.join(d, "replayed.out")
-        rrc, rerr = run_clean([os.path.join(moved, "run-with"), m["wild"]], {"OUT": out2}, cwd,
-                              timeout=20)
+        # run-with's `mktemp` files are never removed (its EXIT trap is lost by `exec`): keep them
+        # inside the scratch directory.
+        tmpd = os.path.join(d, "tmp")
+        os.makedirs(tmpd)
+        rrc, rerr = run_clean([os.path.join(moved, "run-with"), m["wild"]],
+                              {"OUT": out2, "TMPDIR": tmpd}, cwd, timeout=tmo)
+        if rrc in ("timeout", "oserror"):
+            res.update(status="harness-" + rrc, stderr=rerr)
+            return res
         new_sha = vlib.file_sha(out2)
         res.update(rc=rrc, stderr=rerr[-300:], orig_sha=orig_sha, new_sha=new_sha)
         if rrc != 0:
@@ -343,6 +357,48 @@ def base_key(status, carrier, pos, ch, place):
     return f"{status}:{c}:{pos}:{carrier}"
 
 
+def assign_keys(members, results):
+    """Returns [(index, key, attributed)] for every failing member. A richer member (second
+    insertion place, two characters, two positions) whose single-character member already fails is
+    attributed to that member's key, so that keys stay narrow and few."""
+    single = {}     # (carrier, pos, ch, place) -> status
+    for m, r in zip(members, results):
+        if len(m["vary"]) == 1 and len(m["vary"][0][1]) == 1:
+            pos, ch, place = m["vary"][0]
+            single[(m["carrier"], pos, ch, place)] = r["status"]
+
+    def single_fail_key(carrier, pos, ch):
+        place = "lead" if ch in LEAD_ONLY else "mid"
+        st = single.get((carrier, pos, ch, place))
+        if st in FAIL:
+            return base_key(st, carrier, pos, ch, place)
+        return None
+
+    out = []
+    for i, (m, r) in enumerate(zip(members, results)):
+        if r["status"] not in FAIL:
+            continue
+        carrier = m["carrier"]
+        key = None
+        if len(m["vary"]) == 1:
+            pos, chars, place = m["vary"][0]
+            if len(chars) == 1:
+                if place != "mid" and chars not in LEAD_ONLY:
+                    key = single_fail_key(carrier, pos, chars)
+                own = base_key(r["status"], carrier, pos, chars, place)
+            else:
+                key = single_fail_key(carrier, pos, chars[0]) or \
+                    single_fail_key(carrier, pos, chars[1])
+                own = f"{r['status']}:{chars!r}:{pos}:{carrier}"
+        else:
+            for pos, ch, place in m["vary"]:
+                key = key or single_fail_key(carrier, pos, ch)
+            own = (f"{r['status']}:pair:" + "+".join(
+                f"{ch!r}:{pos}" for pos, ch, _ in m["vary"]) + f":{carrier}")
+        out.append((i, key or own, key is not None))
+    return out
+
+
 def main():
     chk = vlib.Check("C24", "exploration")
     if not chk.args.no_build:
@@ -359,62 +415,67 @@ def main():
         for i, m in enumerate(members):
             m.update(idx=i, base=base, proto=proto, wild=vlib.WILD)
         results = vlib.pmap(run_member, members, chunksize=4)
+        # A time-out is never a verdict: such members are re-run one at a time with a long limit.
+        retried = 0
+        for i, r in enumerate(results):
+            if r["status"].startswith("harness-"):
+                retried += 1
+                results[i] = run_member(dict(members[i], timeout=300))
+                if results[i]["status"].startswith("harness-"):
+                    chk.machinery(f"{member_label(members[i])}: {results[i]['status']} even with a "
+                                  f"300 s limit: {results[i].get('stderr', '')[-200:]}")
+
+        # A failure opens a key only if it reproduces: the first member of every distinct key is
+        # run again (load on the machine must never become a verdict).
+        flaky = []
+        for _round in range(4):
+            keyed = assign_keys(members, results)
+            first = {}
+            for i, key, _ in keyed:
+                first.setdefault(key, i)
+            todo = [i for i in first.values() if not members[i].get("confirmed")]
+            if not todo:
+                break
+            again = vlib.pmap(run_member, [dict(members[i], idx=f"c{i}", timeout=120)
+                                           for i in todo], chunksize=1)
+            for i, r2 in zip(todo, again):
+                if r2["status"] != results[i]["status"]:
+                    r3 = run_member(dict(members[i], idx=f"d{i}", timeout=300))
+                    if r3["status"] == r2["status"]:
+                        flaky.append({"member": member_label(members[i]),
+                                      "first": results[i]["status"], "then": r2["status"]})
+                        results[i] = r3
+                    elif r3["status"] != results[i]["status"]:
+                        chk.machinery(f"{member_label(members[i])}: three runs, three outcomes: "
+                                      f"{results[i]['status']}, {r2['status']}, {r3['status']}")
+                members[i]["confirmed"] = True
+        else:
+            chk.machinery("confirmation runs did not converge")
 
     counts = {}
-    single = {}     # (carrier, pos, ch, place) -> status
     for m, r in zip(members, results):
         counts[r["status"]] = counts.get(r["status"], 0) + 1
-        if len(m["vary"]) == 1 and len(m["vary"][0][1]) == 1:
-            pos, ch, place = m["vary"][0]
-            single[(m["carrier"], pos, ch, place)] = r["status"]
     for m, r in zip(members, results):
         if not m["vary"] and r["status"] != "ok":
             chk.machinery(f"baseline member {member_label(m)} does not replay: {r}")
-
-    def single_fail_key(carrier, pos, ch):
-        """Key of the failing single-character member that subsumes a richer member."""
-        place = "lead" if ch in LEAD_ONLY else "mid"
-        st = single.get((carrier, pos, ch, place))
-        if st in FAIL:
-            return base_key(st, carrier, pos, ch, place)
-        return None
-
+    excluded = [{"member": member_label(m), "status": r["status"],
+                 "why": r.get("why") or r.get("stderr", "").strip()[-120:]}
+                for m, r in zip(members, results)
+                if r["status"] in ("unrepresentable", "not-linkable")]
     samples = []
+    for m, r in zip(members, results):
+        if len(samples) < 6 and m["vary"] and r["status"] == ("ok" if len(samples) % 2 == 0
+                                                               else "replay-fails"):
+            samples.append({"member": member_label(m), "argv": r.get("argv"),
+                            "status": r["status"],
+                            "run_with_tail": r.get("script_tail", "")[-300:]})
     fail_table = {}
     subsumed = 0
-    for m, r in zip(members, results):
-        label = member_label(m)
-        if len(samples) < 6 and m["vary"] and r["status"] in ("ok",) and len(samples) % 2 == 0 or \
-                len(samples) < 6 and r["status"] in FAIL and len(samples) % 2 == 1:
-            samples.append({"member": label, "argv": r.get("argv"), "status": r["status"],
-                            "run_with_tail": r.get("script_tail", "")[-300:]})
-        if r["status"] not in FAIL:
-            continue
-        carrier = m["carrier"]
-        key = None
-        if len(m["vary"]) == 1:
-            pos, chars, place = m["vary"][0]
-            if len(chars) == 1:
-                key = None if place in ("mid",) or chars in LEAD_ONLY else \
-                    single_fail_key(carrier, pos, chars)
-                if key:
-                    subsumed += 1
-                key = key or base_key(r["status"], carrier, pos, chars, place)
-            else:
-                key = single_fail_key(carrier, pos, chars[0]) or \
-                    single_fail_key(carrier, pos, chars[1])
-                if key:
-                    subsumed += 1
-                key = key or f"{r['status']}:{chars!r}:{pos}:{carrier}"
-        else:
-            for pos, ch, place in m["vary"]:
-                key = key or single_fail_key(carrier, pos, ch)
-            if key:
-                subsumed += 1
-            key = key or (f"{r['status']}:pair:" + "+".join(
-                f"{ch!r}:{pos}" for pos, ch, _ in m["vary"]) + f":{carrier}")
+    for i, key, attributed in keyed:
+        m, r = members[i], results[i]
+        subsumed += attributed
         fail_table[key] = fail_table.get(key, 0) + 1
-        what = (f"{label}: {r['status']} (replay exit {r.get('rc')}); stderr: "
+        what = (f"{member_label(m)}: {r['status']} (replay exit {r.get('rc')}); stderr: "
                 f"{r.get('stderr', '')[-200:]!r}; run-with: ...{r.get('script_tail', '')[-250:]!r}")
         chk.violation(key, what, replay_dict(m, r))
 
@@ -429,6 +490,9 @@ def main():
                 "the replay oracle was evaluated",
         "samples": samples, "exhaustive": True, "status_counts": counts,
         "oracle_evaluated": evaluated, "failing_keys": fail_table,
+        "members_rerun_after_harness_timeout": retried,
+        "keys_confirmed_by_a_second_run": len(fail_table), "flaky_members": flaky,
+        "excluded_members": excluded,
         "richer_members_attributed_to_a_failing_single_character_key": subsumed,
         "characters": [repr(c) for c in CHARS], "carriers": CARRIERS,
         "thinned": None if chk.thorough else
